@@ -224,6 +224,12 @@ func (c *checkCtx) registryTask() {
 			t := pathTag(s)
 			A, R := s.acqState, s.relState
 			k := Var("k!any", SInt)
+			if A != nil && R == nil {
+				// the lock was taken but the engine saw no release of a critical section that holds the map's state
+				// (e.g. acquisition and release inside different helpers): nothing relates the two states
+				x.oblige(s, "ensures", "one-critical-section@"+t, False, "the operation works in one critical section whose state at release is known")
+				return
+			}
 			switch name {
 			case "Registry":
 				svc := x.names["service"].(VBox)
@@ -268,11 +274,13 @@ func (c *checkCtx) registryTask() {
 				x.oblige(s, "ensures", "registry-empty@"+t, Not(mdom(R, k)), "after Clear no name is registered")
 			}
 		}
-		x.execAll(st)
-		if x.returns == 0 {
-			x.fail(st, "vacuity", "no-return-reached", "no path reaches a return")
-		}
-		c.obs = append(c.obs, x.obs...)
+		c.obs = append(c.obs, c.guard("codec."+name, "registry", func() []*Obligation {
+			x.execAll(st)
+			if x.returns == 0 {
+				x.fail(st, "vacuity", "no-return-reached", "no path reaches a return")
+			}
+			return x.obs
+		})...)
 	}
 	c.notes = append(c.notes,
 		"what is proved: lock discipline (every access to the registry map lies in one critical section of its RWMutex, writes under the write lock, one acquisition per call, released on every path) and the sequential specification of each operation between the registry state at acquisition (havocked: other goroutines may have done anything) and at release",
